@@ -44,6 +44,7 @@ type link struct {
 	written0  int // value of written when the faults were armed
 	rd        chan struct{}
 	faults    []*linkFault
+	werr      *linkFault // a write error when the writer has written Offset bytes (Kind "writeerr")
 	net       *Net
 }
 
@@ -137,6 +138,25 @@ func (c *Conn) Write(p []byte) (int, error) {
 	if l.wclosed || l.closed {
 		return 0, &net.OpError{Op: "write", Net: "tcp", Err: io.ErrClosedPipe}
 	}
+	if wf := l.werr; wf != nil && !wf.fired && len(p) > 0 && l.written+len(p) > wf.Offset {
+		// a write that fails half way, as with an expired write deadline: the first k bytes are on their
+		// way, the rest is not, and the connection itself stays open
+		k := wf.Offset - l.written
+		if k < 0 {
+			k = 0
+		}
+		wf.fired = true
+		if s := verifsim.Current(); s != nil {
+			s.Fault("conn-write-error")
+			s.Logf("write error on %s after %d of %d bytes", l.name, k, len(p))
+		}
+		l.written += k
+		if k > 0 && !l.silent {
+			l.inflight = append(l.inflight, append([]byte(nil), p[:k]...))
+			l.notBefore = append(l.notBefore, time.Time{})
+		}
+		return k, &net.OpError{Op: "write", Net: "tcp", Err: writeTimeoutErr{}}
+	}
 	l.written += len(p)
 	if l.silent || len(p) == 0 {
 		return len(p), nil
@@ -227,6 +247,13 @@ type Listener struct {
 	ch      chan struct{}
 	net     *Net
 }
+
+// writeTimeoutErr is what a write returns when its deadline expires: temporary, timeout.
+type writeTimeoutErr struct{}
+
+func (writeTimeoutErr) Error() string   { return "sim: i/o timeout (write)" }
+func (writeTimeoutErr) Timeout() bool   { return true }
+func (writeTimeoutErr) Temporary() bool { return true }
 
 type tempAcceptErr struct{}
 
@@ -336,6 +363,11 @@ func (n *Net) AddFault(k int, dir string, offset int, kind string) {
 	if n.PlanFaults[k] == nil {
 		n.PlanFaults[k] = map[string][]*linkFault{}
 	}
+	if kind == "writeerr" {
+		// offsets of write errors count bytes written by that direction's writer
+		n.PlanFaults[k]["w:"+dir] = []*linkFault{{Offset: offset, Kind: kind}}
+		return
+	}
 	n.PlanFaults[k][dir] = append(n.PlanFaults[k][dir], &linkFault{Offset: offset, Kind: kind})
 }
 
@@ -348,6 +380,12 @@ func (n *Net) Pair(clientAddr, serverAddr string) (*Conn, *Conn) {
 	if pf := n.PlanFaults[id]; pf != nil {
 		c2s.faults = pf["c2s"]
 		s2c.faults = pf["s2c"]
+		if w := pf["w:c2s"]; len(w) > 0 {
+			c2s.werr = &linkFault{Offset: w[0].Offset, Kind: "writeerr"}
+		}
+		if w := pf["w:s2c"]; len(w) > 0 {
+			s2c.werr = &linkFault{Offset: w[0].Offset, Kind: "writeerr"}
+		}
 	}
 	n.links = append(n.links, c2s, s2c)
 	ca, sa := tcpAddr(clientAddr), tcpAddr(serverAddr)
@@ -562,6 +600,10 @@ func (n *Net) ArmExisting() {
 				l.faults = append(l.faults, &linkFault{Offset: f.Offset + l.delivered, Kind: f.Kind})
 			}
 			l.written0 = l.written
+			l.werr = nil
+			if w := pf["w:"+dir]; len(w) > 0 {
+				l.werr = &linkFault{Offset: w[0].Offset + l.written, Kind: "writeerr"}
+			}
 			l.mu.Unlock()
 		}
 	}
@@ -593,6 +635,9 @@ func (n *Net) Disarm() {
 		l.mu.Lock()
 		for _, f := range l.faults {
 			f.fired = true
+		}
+		if l.werr != nil {
+			l.werr.fired = true
 		}
 		l.mu.Unlock()
 	}
